@@ -501,3 +501,71 @@ PREFIX_HARNESSES = [
     (h_dec_prefix_fixedwidth, "dec", ["prefix.read_boolean", "prefix.read_float", "prefix.read_double"]),
     (h_dec_prefix_bytes, "dec", ["prefix.read_bytes", "prefix.read_utf8", "prefix.read_fixed"]),
 ]
+
+
+# ---- index guards of the structural reader (E1, every int) ----------------------------------
+
+RD = "fastavro._read_py"
+
+
+class _IdxDecoder:
+    """decoder stub: the index is symbolic, everything after it is a sentinel"""
+
+    def __init__(self, idx):
+        self.idx = idx
+        self.after = 0
+
+    def read_index(self):
+        return self.idx
+
+    def read_enum(self):
+        return self.idx
+
+    def read_long(self):
+        self.after += 1
+        return 0
+
+    read_int = read_long
+
+    def read_null(self):
+        self.after += 1
+        return None
+
+    def read_utf8(self, handle_unicode_errors="strict"):
+        self.after += 1
+        return ""
+
+
+def h_index_guards(m):
+    """read_union / skip_union / read_enum / skip_enum: an index outside [0, n) raises before anything
+    else is read; an index inside selects exactly that branch / symbol"""
+    n = m.choice("n", 1, 4)
+    idx = m.int("idx", -(1 << 63), (1 << 63) - 1)
+    mod = m.mod(RD)
+    union = (["null", "int", "string", "long"])[:n]
+    enum = {"type": "enum", "name": "E", "symbols": ["A", "B", "C", "D"][:n]}
+    ns = {"writer": {}, "reader": {}}
+    inr = z3.And(Z(idx) >= 0, Z(idx) < n)
+    for name, fn in (("read_union", lambda d: mod.read_union(d, union, ns, None, {})),
+                     ("skip_union", lambda d: mod.skip_union(d, union, ns)),
+                     ("read_enum", lambda d: mod.read_enum(d, enum, ns, None, {})),
+                     ("skip_enum", lambda d: mod.skip_enum(d, enum, ns))):
+        d = _IdxDecoder(idx)
+        try:
+            r = fn(d)
+        except Exception:
+            m.prove(f"guard.{name}.raises_only_out_of_range", z3.Not(inr), "in-range index raised")
+            m.prove(f"guard.{name}.nothing_read_after_bad_index", d.after == 0, "decoder read on after a bad index")
+            continue
+        m.prove(f"guard.{name}.accepts_only_in_range", inr, f"{name} accepted an out-of-range index")
+        if name == "read_enum":
+            sym = enum["symbols"]
+            m.prove("guard.read_enum.symbol", z3.Or(*[z3.And(Z(idx) == i, r == sym[i]) for i in range(n)]),
+                    "wrong symbol for the index")
+
+
+GUARD_HARNESSES = [
+    (h_index_guards, "idx", [f"guard.{f}.{o}" for f in ("read_union", "skip_union", "read_enum", "skip_enum")
+                             for o in ("raises_only_out_of_range", "accepts_only_in_range", "nothing_read_after_bad_index")]
+     + ["guard.read_enum.symbol"]),
+]
